@@ -145,7 +145,10 @@ def mrVerdict (sc : Nat) (impl : Option (List String)) (spec : Array Bool)
         | some (prev, r) =>
           if o.l != prev.filter (fun x => decide (r.b ≤ x.b) && decide (x.e ≤ r.e)) then "FAIL:filter_spec"
           else if !denotes sc o.l spec then "FAIL:mr_denotes"
-          else "ok"
+          else if sc == 1 && o.len != (specLen spec : Nat) then "FAIL:mr_total_length"
+          else match obsVerdict o true with
+            | some f => f
+            | none => "ok"
         | none =>
           if !denotes sc o.l spec then "FAIL:mr_denotes"
           else if sc == 1 && o.len != (specLen spec : Nat) then "FAIL:mr_total_length"
@@ -182,6 +185,50 @@ def implList (sc : Nat) (impl : Option (List String)) (dflt : List (Range α)) :
     | none => dflt
 
 def cells (sc : Nat) (r : Range α) : List Nat := (List.range U).filter (cellIn sc r)
+
+/-- the model's answer to `r.pred` / `r.shpred` -/
+def predOut (sc : Nat) (x r : Range α) : String :=
+  showC sc [x.b, x.e] ++ " " ++ showBool (x.overlap r) ++ " " ++ showBool (x.isContiguous r)
+    ++ " " ++ showBool (x.contains r) ++ " " ++ showBool x.isEmpty ++ " " ++ showC sc [x.length]
+    ++ " " ++ showBool (x.eq r) ++ " " ++ showBool (x.ne r) ++ " " ++ showBool (x.lt r) ++ " " ++ x.toString
+
+/-- The predicates of `Range` judged against **point-set arithmetic on half-open intervals, empty
+operands included** (not against the model's formulas): two ranges overlap iff they share a cell,
+`x` contains `r` iff every cell of `r` is a cell of `x` (so an empty range overlaps nothing and is
+contained in everything), `x` is empty iff it has no cell, its length is its number of cells.
+Contiguity is positional (one bound shared), as documented in the header; a point set alone does
+not say where an empty range lies.  Where the implementation deviates in the two known ways the
+clause names them (`overlap_empty_operand`, `contains_empty_range`: `findings/C20.json`); an
+ill-formed first operand (wrapped `unsigned` shift result) that deviates gives `illformed_arg_uint`. -/
+def predJudge (sc : Nat) (impl : Option (List String)) (x r : Range α) : String :=
+  match impl with
+  | none => "-"
+  | some [xb, xe, ovl, contig, cont, empty, len, eq, ne, lt, str] =>
+    let cx := cells sc x; let cr := cells sc r
+    let ovlS := showBool (cx.any (fun p => cr.contains p))
+    let contS := showBool (cr.all (fun p => cx.contains p))
+    let emptyS := showBool cx.isEmpty
+    let lenS := toString cx.length
+    if !decide (x.b ≤ x.e) then
+      (if ovl == ovlS && cont == contS && empty == emptyS && len == lenS then "ok" else "FAIL:illformed_arg_uint")
+    else
+      let same := decide (x.b = r.b) && decide (x.e = r.e)
+      let less := decide (x.b < r.b) || decide (x.e < r.e)
+      let contigS := showBool (decide (x.e = r.b) || decide (r.e = x.b))
+      if xb ++ " " ++ xe != showC sc [x.b, x.e] || contig != contigS || empty != emptyS || len != lenS
+          || eq != showBool same || ne != showBool (!same) || lt != showBool less
+          || str != "[" ++ CoordIO.render x.b ++ "," ++ CoordIO.render x.e ++ "[" then "FAIL:range_spec"
+      else if ovl != ovlS then
+        -- known deviation: an empty operand lying strictly inside the other one "overlaps" it
+        (if ovl == "1" && ((decide (r.b = r.e) && decide (x.b < r.b) && decide (r.b < x.e))
+              || (decide (x.b = x.e) && decide (r.b < x.b) && decide (x.b < r.e)))
+         then "FAIL:overlap_empty_operand" else "FAIL:range_spec")
+      else if cont != contS then
+        -- known deviation: an empty range lying outside `[begin,end]` is "not contained"
+        (if cont == "0" && decide (r.b = r.e) && (decide (r.b < x.b) || decide (x.e < r.b))
+         then "FAIL:contains_empty_range" else "FAIL:range_spec")
+      else "ok"
+  | some _ => "FAIL:parse"
 
 def step (s : St α) (op : List String) (impl : Option (List String)) : St α × String × String :=
   let sc := s.scale
@@ -248,7 +295,8 @@ def step (s : St α) (op : List String) (impl : Option (List String)) : St α ×
       let out := match RangeCollection.getRange? l i with
         | some x => showC sc [x.b, x.e]
         | none => "oob"
-      (s, out, implVerdict impl out "getRange")
+      -- nothing is called for an index out of range: nothing to judge
+      (s, out, if out == "oob" then "-" else implVerdict impl out "getRange")
     | _, _ => (s, "bad-op", "-")
   | ["rs.add", k, a, b] =>
     match nat? k, int? a, int? b with
@@ -300,21 +348,33 @@ def step (s : St α) (op : List String) (impl : Option (List String)) : St α ×
     | some a, some b, some c, some d =>
       let a := rd a; let b := rd b; let c := rd c; let d := rd d
       let x := Range.make a b; let r := Range.make c d
-      let out := showC sc [x.b, x.e] ++ " " ++ showBool (x.overlap r) ++ " " ++ showBool (x.isContiguous r)
-        ++ " " ++ showBool (x.contains r) ++ " " ++ showBool x.isEmpty ++ " " ++ showC sc [x.length]
-        ++ " " ++ showBool (x.eq r) ++ " " ++ showBool (x.ne r) ++ " " ++ showBool (x.lt r) ++ " " ++ x.toString
-      -- interval arithmetic on cells (for non-empty operands), end points otherwise (`range_preds`)
-      let cx := cells sc x; let cr := cells sc r
-      let ovl := if x.isEmpty || r.isEmpty then x.overlap r else cx.any (fun p => cr.contains p)
-      let cont := if r.isEmpty then x.contains r else cr.all (fun p => cx.contains p)
-      let contig := decide (max a b = min c d) || decide (max c d = min a b)
-      let same := decide (min a b = min c d) && decide (max a b = max c d)
-      let less := decide (min a b < min c d) || decide (max a b < max c d)
-      let want := showC sc [min a b, max a b] ++ " " ++ showBool ovl ++ " " ++ showBool contig
-        ++ " " ++ showBool cont ++ " " ++ showBool (decide (a = b)) ++ " " ++ toString ((cx.length : Nat) : Int)
-        ++ " " ++ showBool same ++ " " ++ showBool (!same) ++ " " ++ showBool less
-        ++ " [" ++ CoordIO.render (min a b) ++ "," ++ CoordIO.render (max a b) ++ "["
-      (s, out, implVerdict impl want)
+      let _ := a; let _ := b; let _ := c; let _ := d
+      (s, predOut sc x r, predJudge sc impl x r)
+    | _, _, _, _ => (s, "bad-op", "-")
+  | ["r.shpred", a, b, v, c, d] =>
+    -- the first operand is a shift result `Range(a,b) - v` (for `unsigned` possibly wrapped and ill formed)
+    match int? a, int? b, int? v, int? c, int? d with
+    | some a, some b, some v, some c, some d =>
+      let x := (Range.make (rd a) (rd b)).unshift (rd v); let r := Range.make (rd c) (rd d)
+      (s, predOut sc x r, predJudge sc impl x r)
+    | _, _, _, _, _ => (s, "bad-op", "-")
+  | ["mr.addsh", k, a, b, v] =>
+    -- a shift result as argument of a collection operation
+    match nat? k, int? a, int? b, int? v with
+    | some k, some a, some b, some v =>
+      let r := (Range.make (rd a) (rd b)).unshift (rd v)
+      let m := MultiRange.addRange s.mr[k]! r
+      let sp := (s.spec[k]!).mapIdx (fun p v => v || cellIn sc r p)
+      let verdict :=
+        if decide (r.b ≤ r.e) then mrVerdict (α := α) sc impl sp none (some (specAdd s.implMr[k]! r))
+        else match impl with
+          | none => "-"
+          | some t => match parseObs (α := α) sc t with
+            -- ill-formed argument (theorem `illformed_arg_uint`): the invariant must hold nevertheless
+            | some o => if invOk o.l && denotes sc o.l sp then "ok" else "FAIL:illformed_arg_uint"
+            | none => "FAIL:parse"
+      ({ s with mr := s.mr.set! k m, spec := s.spec.set! k sp, implMr := s.implMr.set! k (implList sc impl m) },
+        showColl sc m, verdict)
     | _, _, _, _ => (s, "bad-op", "-")
   | ["r.expand", a, b, c, d] =>
     match int? a, int? b, int? c, int? d with
